@@ -162,6 +162,37 @@ Lemma tbody_sh_S : forall fs S G bi be n body s rest sigma,
   end.
 Proof. reflexivity. Qed.
 
+(** the fuel suffices for every sharing discipline, too *)
+Lemma tbody_sh_fuel : forall fs S G bi be fuel body rem sigma,
+  ssize rem < fuel -> fst (tbody_sh fs S G bi be fuel body rem sigma) <> TOutOfFuel.
+Proof.
+  intros fs S G bi be. induction fuel as [|n IH]; intros body rem sigma H.
+  - lia.
+  - destruct rem as [|s rest].
+    + change (fst (fallback fs body sigma, sigma) <> TOutOfFuel). cbn [fst]. unfold fallback.
+      destruct (f_fallback fs); try discriminate.
+      destruct (last_assign body None) as [x|]; [destruct (assoc x sigma)|]; discriminate.
+    + rewrite tbody_sh_S. destruct s as [x e|xs es|c a b|e| | |]; simpl in H.
+      * destruct (texpr fs S G sigma e); [apply IH; lia | discriminate].
+      * destruct (ttuple fs S G sigma xs es); [apply IH; lia | discriminate].
+      * cbv zeta. cbn [fst].
+        match goal with
+        | |- join_if _ (fst ?r1) (fst ?r2) <> _ =>
+            assert (H1 : fst r1 <> TOutOfFuel) by (apply IH; rewrite ssize_sapp; lia);
+            assert (H2 : fst r2 <> TOutOfFuel) by (apply IH; rewrite ssize_sapp; lia);
+            destruct (fst r1) as [ie| |]; destruct (fst r2) as [ee| |]; try congruence; try discriminate
+        end.
+        unfold join_if. destruct (tcond fs S G sigma c); [destruct ee|]; discriminate.
+      * cbn [fst]. destruct (texpr fs S G sigma e); discriminate.
+      * discriminate.
+      * apply IH; lia.
+      * destruct (f_stmt_else fs); try discriminate; apply IH; lia.
+Qed.
+
+Lemma threaded_never_out_of_fuel : forall fs S G bi be body sigma,
+  fst (tbody_sh fs S G bi be (Datatypes.S (ssize body)) body body sigma) <> TOutOfFuel.
+Proof. intros. apply tbody_sh_fuel. lia. Qed.
+
 Lemma threaded_copy_is_pure : forall fs, f_cf fs = CfContinuation BrCopy BrCopy ->
   forall S G fuel body rem sigma,
     fst (tbody_sh fs S G BrCopy BrCopy fuel body rem sigma) = tbody fs S G fuel body rem sigma.
@@ -186,30 +217,33 @@ Qed.
 
 Lemma sound_constants_renamed : forall fs, fs = expected_facts ->
   forall first now ms i margs e vs v rho,
+    arity_ok fs (map (at_env now) ms) ->
     margs <> [] ->
     translate fs first now ms i margs = Some e ->
     py_value now ms i vs = Some v ->
     Forall2 (fun m x => seval rho m = Some x) margs vs ->
     seval rho e = Some v.
 Proof.
-  intros fs Hfs first now ms i margs e vs v rho Hne Ht Hp HF. subst fs.
+  intros fs Hfs first now ms i margs e vs v rho Hok Hne Ht Hp HF. subst fs.
   unfold translate, env_used in Ht. change (f_const ef) with ConstAtCall in Ht. cbv beta iota in Ht.
-  exact (sound_renamed ef eq_refl _ _ _ _ _ _ _ Hne Ht Hp HF).
+  exact (sound_renamed ef eq_refl _ _ _ _ _ _ _ Hok Hne Ht Hp HF).
 Qed.
 
 Lemma sound_constants_unrenamed : forall fs, fs = expected_facts ->
   forall first now ms i ps e vs v rho,
+    arity_ok fs (map (at_env now) ms) ->
     translate_summary fs first now ms i = Some (ps, e) ->
     py_value now ms i vs = Some v ->
+    length ps = length vs ->
     (forall x q, assoc x (combine ps vs) = Some q -> rho x = Some q) ->
-    length ps = length vs /\ seval rho e = Some v.
+    seval rho e = Some v.
 Proof.
-  intros fs Hfs first now ms i ps e vs v rho Ht Hp Hext. subst fs.
+  intros fs Hfs first now ms i ps e vs v rho Hok Ht Hp Hlen Hext. subst fs.
   unfold translate_summary, env_used in Ht. change (f_const ef) with ConstAtCall in Ht.
   cbv beta iota in Ht.
   destruct (nth_error (summaries ef (map (at_env now) ms)) i) as [su|] eqn:Hn; [|discriminate Ht].
   subst su.
-  exact (sound_unrenamed ef eq_refl _ _ _ _ _ _ _ Hn Hp Hext).
+  exact (sound_unrenamed ef eq_refl _ _ _ _ _ _ _ Hok Hn Hp Hlen Hext).
 Qed.
 
 Lemma translate_history_free : forall fs, fs = expected_facts ->
